@@ -307,6 +307,9 @@ type egen struct {
 	locals map[string]string // local name -> class: num | str | bool  (best effort)
 	illP   int               // per-mille probability of an ill-typed choice
 	depth  int
+	quiet  bool              // inside an unbounded loop: no conc blocks
+	concP  int               // percent of statements that are conc blocks (default 5)
+	noteN  int               // running argument of obsC / Note events, distinct per rule
 }
 
 func lit(k, v string) *RE { return &RE{Op: "lit", Val: &JVal{k, v}} }
@@ -377,6 +380,42 @@ func (g *egen) numAtom(cls string) *RE {
 		}
 		return &RE{Op: "var", Sym: "v_" + ks[r.intn(len(ks))]}
 	case p < 93:
+		if g.ill() || (g.illP > 50 && r.chance(1, 4)) {
+			// faulty element access: unknown collection, string index into a slice, undefined key
+			// variable, out-of-range index
+			switch r.intn(5) {
+			case 0:
+				return &RE{Op: "idx", Sym: "NOPE", Key: &RKey{"int", "1"}}
+			case 1:
+				return &RE{Op: "idx", Sym: "A", Key: &RKey{"str", "x"}}
+			case 2:
+				return &RE{Op: "idx", Sym: "M", Key: &RKey{"var", "nokey"}}
+			case 3:
+				return &RE{Op: "idx", Sym: "AP", Key: &RKey{"int", "9"}}
+			default:
+				return &RE{Op: "idx", Sym: "v_int", Key: &RKey{"int", "0"}}
+			}
+		}
+		if r.chance(1, 3) {
+			// element addressed by a variable (present and missing keys, in-range indexes)
+			switch {
+			case cls == "sint" || cls == "num":
+				switch r.intn(4) {
+				case 0:
+					return &RE{Op: "idx", Sym: "M", Key: &RKey{"var", "v_string"}}
+				case 1:
+					return &RE{Op: "idx", Sym: "MP", Key: &RKey{"var", []string{"v_string", "w_string", "S.Str"}[r.intn(3)]}}
+				case 2:
+					return &RE{Op: "idx", Sym: "A", Key: &RKey{"var", []string{"v_uint8", "v_int8", "v_int"}[r.intn(3)]}}
+				default:
+					return &RE{Op: "idx", Sym: "AP", Key: &RKey{"var", "v_int16"}}
+				}
+			case cls == "flt":
+				return &RE{Op: "idx", Sym: "MF", Key: &RKey{"var", []string{"v_int32", "v_int8", "v_int64"}[r.intn(3)]}}
+			case cls == "str":
+				return &RE{Op: "idx", Sym: "MI", Key: &RKey{"var", []string{"v_int64", "v_int16", "v_uint8"}[r.intn(3)]}}
+			}
+		}
 		switch {
 		case cls == "sint" || cls == "num":
 			switch r.intn(3) {
@@ -411,6 +450,11 @@ func (g *egen) strAtom() *RE {
 		return &RE{Op: "var", Sym: "S.Str"}
 	case 2:
 		return &RE{Op: "call", Kind: "func", Sym: "cat", Args: []*RE{lit("string", "x"), lit("string", "y")}}
+	case 3:
+		if r.chance(1, 2) {
+			return &RE{Op: "idx", Sym: "MI", Key: &RKey{"var", []string{"v_int64", "v_int16", "v_uint8"}[r.intn(3)]}}
+		}
+		return &RE{Op: "idx", Sym: "MI", Key: &RKey{"int", []string{"1", "2", "7"}[r.intn(3)]}}
 	default:
 		return lit("string", []string{"", "a", "ab", "b", "Z", "hello"}[r.intn(6)])
 	}
@@ -616,7 +660,10 @@ func (g *egen) assignStmt(depth int) *RS {
 		}
 		strict = true
 	default:
-		if r.chance(1, 3) {
+		if g.ill() || (g.illP > 50 && r.chance(1, 3)) {
+			// a bare injected object that is not a scalar: reflect refuses the write
+			tgt = &RE{Op: "var", Sym: []string{"S", "MP", "AP", "SV", "obs", "M"}[r.intn(6)]}
+		} else if r.chance(1, 3) {
 			tgt = &RE{Op: "var", Sym: "v_int64"} // injected by value: unassignable
 		} else {
 			tgt = &RE{Op: "var", Sym: localNames[r.intn(len(localNames))]}
@@ -624,6 +671,12 @@ func (g *egen) assignStmt(depth int) *RS {
 		cls = "sint"
 	}
 	_ = strict
+	if g.ill() || (g.illP > 50 && r.chance(1, 12)) {
+		// a container assigned to an injected pointer to a container of another type: reflect panics
+		pairs := [][2]string{{"AP", "A"}, {"MP", "M"}, {"AP", "AS"}, {"MI", "M"}}
+		pr := pairs[r.intn(len(pairs))]
+		return &RS{Op: "assign", Sym: "=", Tgt: &RE{Op: "var", Sym: pr[0]}, E: &RE{Op: "var", Sym: pr[1]}}
+	}
 	op := "="
 	if r.chance(1, 4) {
 		op = []string{"+=", "-=", "*=", "/=", ":="}[r.intn(5)]
@@ -732,6 +785,9 @@ func (g *egen) stmt(depth int, inLoop bool) *RS {
 		}
 		return g.callStmt()
 	}
+	if g.concP > 0 && r.intn(100) < g.concP && !g.quiet {
+		return g.concStmt()
+	}
 	switch {
 	case p < 40:
 		return g.assignStmt(2)
@@ -752,21 +808,45 @@ func (g *egen) stmt(depth int, inLoop bool) *RS {
 		return s
 	case p < 84:
 		iv := []string{"i", "j", "k"}[r.intn(3)]
+		if r.chance(1, 6) {
+			iv = []string{"p_int64", "S.I64", "p_int32"}[r.intn(3)] // the host sees the loop variable
+		}
 		limit := strconv.Itoa(1 + r.intn(4))
 		init := &RS{Op: "assign", Sym: "=", Tgt: &RE{Op: "var", Sym: iv}, E: lit("int64", "0")}
 		cond := mkBin("cmp", "<", &RE{Op: "var", Sym: iv}, lit("int64", limit))
+		quiet := g.quiet
 		if r.chance(1, 25) {
 			cond = mkBin("cmp", ">=", &RE{Op: "var", Sym: iv}, lit("int64", "0")) // unbounded: cut-off
+			g.quiet = true                                                         // no delayed observers 10000 times over
 		}
+		defer func() { g.quiet = quiet }()
 		step := &RS{Op: "assign", Sym: "+=", Tgt: &RE{Op: "var", Sym: iv}, E: lit("int64", "1")}
 		if r.chance(1, 5) {
 			step = &RS{Op: "assign", Sym: "=", Tgt: &RE{Op: "var", Sym: iv}, E: mkBin("ar", "+", &RE{Op: "var", Sym: iv}, lit("int64", "1"))}
 		}
-		g.locals[iv] = "sint"
-		return &RS{Op: "for", Init: init, E: cond, Step: step, Body: g.block(depth-1, true, false)}
+		if iv == "i" || iv == "j" || iv == "k" {
+			g.locals[iv] = "sint"
+		}
+		body := g.block(depth-1, true, false)
+		if g.quiet && !quiet && r.chance(1, 2) {
+			// an unbounded loop every iteration of which ends in `continue`
+			c := &RS{Op: "continue"}
+			if r.chance(1, 2) {
+				c = &RS{Op: "if", E: mkBin("cmp", ">=", &RE{Op: "var", Sym: iv}, lit("int64", "0")), Body: &RBlock{Stmts: []*RS{{Op: "continue"}}}}
+			}
+			body.Stmts = append([]*RS{c}, body.Stmts...)
+		} else if r.chance(1, 6) {
+			// a return from inside the loop body
+			body.Stmts = append(body.Stmts, &RS{Op: "if", E: mkBin("cmp", "==", &RE{Op: "var", Sym: iv}, lit("int64", strconv.Itoa(r.intn(3)))),
+				Body: &RBlock{HasRet: true, Ret: &RE{Op: "var", Sym: iv}}})
+		}
+		return &RS{Op: "for", Init: init, E: cond, Step: step, Body: body}
 	case p < 90:
 		kv := []string{"ix", "iy"}[r.intn(2)]
 		coll := []string{"A", "AS", "A"}[r.intn(3)]
+		if g.ill() || (g.illP > 50 && r.chance(1, 5)) {
+			coll = []string{"NOPE", "v_int", "S"}[r.intn(3)] // unknown / not iterable
+		}
 		g.locals[kv] = "sint"
 		return &RS{Op: "forRange", Sym: kv, Coll: coll, Body: g.block(depth-1, true, false)}
 	case p < 95:
@@ -786,11 +866,67 @@ func (g *egen) stmt(depth int, inLoop bool) *RS {
 		}
 		return g.assignStmt(1)
 	default:
-		// conc block with independent children
-		return &RS{Op: "conc", Items: []*RS{
-			{Op: "assign", Sym: "=", Tgt: &RE{Op: "var", Sym: "S.I32"}, E: g.smallNum()},
-			{Op: "assign", Sym: "=", Tgt: &RE{Op: "var", Sym: "S.U16"}, E: g.smallNum()},
-			{Op: "call", E: &RE{Op: "call", Kind: "method", Sym: "S.Echo32", Args: []*RE{g.smallNum()}}},
-		}}
+		if g.quiet {
+			return g.assignStmt(1)
+		}
+		return g.concStmt()
 	}
+}
+
+
+// conc block with independent children: distinct assignment targets (fields, locals), observer
+// calls and method calls with distinct arguments; sometimes one failing child
+func (g *egen) concStmt() *RS {
+	r := g.r
+	var pool []*RS
+	tgts := []string{"S.I32", "S.U16", "S.I64", "c0", "c1", "p_int32"}
+	for _, i := range r.perm(len(tgts))[:1+r.intn(3)] {
+		t := tgts[i]
+		if t == "c0" || t == "c1" {
+			g.locals[t] = "sint"
+		}
+		pool = append(pool, &RS{Op: "assign", Sym: "=", Tgt: &RE{Op: "var", Sym: t}, E: g.smallNum()})
+	}
+	for k, n := 0, r.intn(3); k < n; k++ {
+		g.noteN++
+		pool = append(pool, &RS{Op: "call", E: &RE{Op: "call", Kind: "func", Sym: "obsC", Args: []*RE{lit("int64", strconv.Itoa(g.noteN))}}})
+	}
+	for k, n := 0, r.intn(4); k < n; k++ {
+		g.noteN++
+		pool = append(pool, &RS{Op: "call", E: &RE{Op: "call", Kind: "method", Sym: "S.Note", Args: []*RE{lit("int64", strconv.Itoa(g.noteN))}}})
+	}
+	if r.chance(1, 3) {
+		pool = append(pool, &RS{Op: "call", E: &RE{Op: "call", Kind: "method", Sym: "S.Echo32", Args: []*RE{g.smallNum()}}})
+	}
+	if r.chance(1, 6) || (g.illP > 50 && r.chance(1, 2)) {
+		switch r.intn(4) {
+		case 0:
+			pool = append(pool, &RS{Op: "call", E: &RE{Op: "call", Kind: "func", Sym: "boom"}})
+		case 1:
+			pool = append(pool, &RS{Op: "assign", Sym: "=", Tgt: &RE{Op: "var", Sym: "c2"}, E: &RE{Op: "var", Sym: "nolocal.f"}})
+		case 2:
+			pool = append(pool, &RS{Op: "assign", Sym: "=", Tgt: &RE{Op: "var", Sym: "S.Nope"}, E: g.smallNum()})
+		default:
+			pool = append(pool, &RS{Op: "call", E: &RE{Op: "call", Kind: "func", Sym: "nofunc", Args: []*RE{g.smallNum()}}})
+		}
+	}
+	shuffled := make([]*RS, len(pool))
+	for i, j := range r.perm(len(pool)) {
+		shuffled[i] = pool[j]
+	}
+	// ConcStatement keeps its children grouped (assignments, function calls, method calls); the
+	// children are independent, so the generator writes them in that order
+	var items []*RS
+	for _, pass := range []string{"assign", "func", "method"} {
+		for _, it := range shuffled {
+			k := it.Op
+			if k == "call" {
+				k = it.E.Kind
+			}
+			if k == pass {
+				items = append(items, it)
+			}
+		}
+	}
+	return &RS{Op: "conc", Items: items}
 }
